@@ -108,6 +108,9 @@ bool splinetable<Alloc>::write_key(const char* key, const T& value){
 										 "contain lowercase characters (key was '"+
 										 std::string(key)+"')");
 		}
+		if(13+keylen-1>=80)
+			throw std::runtime_error("Keyword is too long to be stored in a FITS header (key was '"+
+									 std::string(key)+"')");
 		maxdatalen=80-(13+keylen-1); //14 characters for "HIERARCH ", "= '", and "'"
 	}
 	std::ostringstream ss;
@@ -118,7 +121,9 @@ bool splinetable<Alloc>::write_key(const char* key, const T& value){
 	size_t valuelen = valuedata.size() + 1;
 	//For normal (short) keys, we get up to 68 bytes of storage, but for longer keywords
 	//the 'HIERARCH Keyword Convention' kicks in and limits us further
-	if(valuelen-1>maxdatalen){
+	//Each single quote in the value is written to the file as two
+	size_t storedlen = valuelen-1 + std::count(valuedata.begin(),valuedata.end(),'\'');
+	if(storedlen>maxdatalen){
 		throw std::runtime_error("Value is too long to be stored as a FITS keyword ('"
 								 +valuedata+"' has length "+std::to_string(valuelen-1)
 								 +", but a maximum of "+std::to_string(maxdatalen)+
